@@ -433,21 +433,30 @@ def fp_cover(key, all_names):
             names = ['G2Prepared_from']
         elif ctx == '' and fn in ('pairing', 'fast_pairing', 'bit'):
             names = [f'Pairings_{fn}']
-    elif rel == 'arith.rs' and ctx == '' and fn in ('adc', 'sbb', 'mac', 'mac_discard'):
-        names = [f'Arith_{fn}_equiv']
-    elif rel == 'u256.rs' and ctx == 'impl U256':
-        names = [f'U256_{fn}_equiv'] + {'add_carry': ['U256_add_carry_loop1_equiv'],
-                                        'invert': ['U256_invert_loop1_equiv', 'U256_invert_loop2_equiv', 'U256_invert_loop3_equiv'],
-                                        'set_bit': [f'U256_set_bit_bound{i}' for i in range(1, 7)]}.get(fn, [])
-    elif rel == 'u512.rs' and ctx == 'impl U512' and fn in ('bit_length', 'get_bit'):
-        names = [f'U512_{fn}_equiv']
-    elif rel == 'fields/fp.rs':
-        if ctx == 'impl Fq' and fn in ('div2', 'sqrt', 'sum_of_products'):
-            names = [f'Fq_{fn}_equiv']
-        elif ctx == 'macro_rules! field_impl / impl From < $ name > for U256' and fn == 'from':
-            names = ['Fp_into_u256_equiv']
-        elif re.fullmatch(r'macro_rules! field_impl / impl (FieldElement for |One for |Zero for )?\$ name', ctx):
-            names = [f'Fp_{fn}_equiv']
+    elif rel in ('arith.rs', 'u256.rs', 'u512.rs', 'fields/fp.rs', 'fields.rs'):
+        # limb level: every theorem of Gen/LimbEquiv.lean about this function (equivalence, loop lemmas, in-range obligations)
+        T = None
+        if rel == 'arith.rs' and ctx == '':
+            T = 'Arith'
+        elif rel == 'u256.rs' and ctx == 'impl U256':
+            T = 'U256'
+        elif rel == 'u256.rs' and 'Iterator for BitIterator' in ctx:
+            T = 'BitIterator'
+        elif rel == 'u512.rs' and ctx == 'impl U512':
+            T = 'U512'
+        elif rel == 'fields/fp.rs' and ctx in ('impl Fq', 'impl Fr'):
+            T = ctx.split()[1]
+        elif rel == 'fields/fp.rs' and ctx == 'macro_rules! field_impl / impl From < $ name > for U256' and fn == 'from':
+            T, fn = 'Fp', 'into_u256'
+        elif rel == 'fields/fp.rs' and re.fullmatch(r'macro_rules! field_impl / impl (FieldElement for |One for |Zero for )?\$ name', ctx):
+            T = 'Fp'
+        elif rel == 'fields.rs' and fn == 'pow' and 'FieldElement' in ctx:
+            T = 'Fp'
+        if T:
+            pat = re.compile(rf'{T}_{re.escape(fn)}_(equiv|bound\d+|loop\d+_equiv|for\d+_equiv)')
+            names = sorted(n for n in all_names if pat.fullmatch(n))
+            if not any(n == f'{T}_{fn}_equiv' for n in names):
+                names = None
     elif rel == 'lib.rs':
         m = re.fullmatch(r'impl (G[12])', ctx)
         if m and fn in ('from_compressed', 'to_compressed', 'to_uncompressed', 'from_uncompressed', 'to_slice', 'from_slice'):
@@ -765,7 +774,7 @@ def decide(prop, tier, seed, replay, lean, bins, hooks, herr, driver, fp, workdi
             'theorems': lean['theorems'],
             'full_strength_proved': meta.get('full_strength', False),
             'partial': meta.get('partial', []),
-            'tie': {'constants': 'extracted from /repo/src on this run', 'fingerprints_checked': fp['checked'], 'fingerprints_changed': fp['changed'],
+            'tie': {'constants': 'extracted from /repo/src on this run', 'fingerprints_checked': fp['checked'], 'fingerprints_changed': fp['changed'], 'added_functions_referenced_nowhere': fp.get('ignored_additions', []),
                     'changed_but_retranslated_and_reproved': fp.get('retranslated', []),
                     'translated_functions': len([v for v in lean.get('translator', {}).get('report', {}).values() if v == 'translated']),
                     'untranslated': {k: v for k, v in lean.get('translator', {}).get('report', {}).items() if v != 'translated'},
